@@ -184,6 +184,7 @@ type totpRateLimitInfo struct {
 	failCount             uint32
 	lastFailTime          time.Time
 	lockoutExpirationTime time.Time
+	lastSuccessCounter    int64 // TOTP step of the last accepted value
 }
 
 type RuntimeState struct {
